@@ -762,6 +762,39 @@ static std::vector<std::vector<U32>> &collision_groups() {
     return groups;
 }
 
+// 16-bit keys whose hash, before the library forces the top bit, has its low 31 bits all zero: on a correct tree they
+// hash to exactly 0x80000000 (bucket 0 at every capacity, the smallest legal hash). StringUtils::Hash adds the last
+// unit it consumes (the middle one) unscaled, so one open unit is solved for with the library's own function.
+static std::vector<U32> &boundary_hash_keys() {
+    static std::vector<U32> found;
+    static bool             done = false;
+    if (done) return found;
+    done = true;
+    Rng r(qsim::derive(0x5eedULL, "boundary-hash-keys"));
+    for (int tries = 0; tries < 1500000 && found.size() < 6; tries++) {
+        size_t                len = 8 + 2 * (size_t)r.below(4); // even: the middle unit is then consumed once only
+        std::vector<char16_t> buf(len + 1);
+        for (size_t i = 0; i < len; i++) buf[i] = (char16_t)(1 + r.below(0xFFFE));
+        size_t off = 0, l = len, mid = 0;
+        while (off < l) {
+            --l;
+            mid = l;
+            ++off;
+        }
+        buf[mid]   = 0;
+        uint32_t f = (uint32_t)Qentem::StringUtils::Hash((const char16_t *)buf.data(), (SizeT)len);
+        uint32_t c = (0u - f) & 0x7FFFFFFFu;
+        if (c == 0 || c > 0xFFFFu) continue;
+        buf[mid] = (char16_t)c;
+        uint32_t h = (uint32_t)Qentem::StringUtils::Hash((const char16_t *)buf.data(), (SizeT)len);
+        if ((h & 0x7FFFFFFFu) != 0) continue;
+        U32 s;
+        for (size_t i = 0; i < len; i++) s.push_back(buf[i]);
+        found.push_back(s);
+    }
+    return found;
+}
+
 static U32 random_key(Rng &r, int width) {
     static const char32_t alpha[] = {'a', 'b', 'c', 'a', 'b', 0, ' ', 'z', 0x7f, 0x80, 0xff, 0x100, 0xffff};
     size_t                n       = (size_t)r.below(5);
@@ -799,6 +832,14 @@ static void generate(Plan &plan, uint64_t seed, int tier) {
         keys.push_back(ascii("ab"));
         keys.push_back(ascii("abc"));
         keys.push_back(ascii("a"));
+    }
+    if (width == 2) {
+        // own stream: the draws of `cfg` and `ops` are the same with and without these keys
+        Rng bk(qsim::derive(seed, "boundary-keys"));
+        if (bk.chance(1, 3)) {
+            auto &bh = boundary_hash_keys();
+            for (size_t i = 0, n = 1 + (size_t)bk.below(3); i < n && !bh.empty(); i++) keys.push_back(bh[bk.below(bh.size())]);
+        }
     }
     if (cfg.chance(1, 90)) {
         // large table: sizes around the powers of two from 128 to 1024 (page-sized item blocks, long partitions in
